@@ -63,7 +63,10 @@ def run(pid: str, tier: str, fn: Callable[[str], Result], replay: Optional[str] 
     t0 = time.time()
     seed = int(os.environ.get("VERIF_SEED", "0") or 0)
     try:
+        from .rules.common import _IN_PROGRESS
+        _IN_PROGRESS.add(pid.lower())
         res = fn(tier)
+        _IN_PROGRESS.discard(pid.lower())
     except AnalysisError as e:
         print(f"ANALYSIS-ERROR property={pid} {e}")
         return 2
